@@ -7,6 +7,9 @@ self.logger.* calls removed) and compared with the templates below; a template c
   pool_close_drops     ThreadPoolServer.close closes the connections left in fd_to_conn before joining the workers
   pool_fail_discards   ThreadPoolServer._accept_method takes the socket out of self.clients when building the connection failed
   fork_parent_keeps    ForkingServer's parent keeps the accepted socket in self.clients (no such tree is known: always false)
+  worker_tracks_served _authenticate_and_serve_client re-registers in self.clients the socket the authenticator returned when it is another object
+  accept_survives_oserror  Server.accept carries on after EMFILE/ENFILE/ENOBUFS/ENOMEM/ECONNABORTED/EPROTO from accept()
+  accept_rechecks_closed   Server.accept looks at _closed again after clients.add(sock) (and closes the socket itself)
   pool_catches_base    ThreadPoolServer._serve_requests catches a BaseException that is not an Exception and drops that connection
                        (otherwise it escapes _serve_clients' `except Exception` too and the worker thread ends)
   connect_instantiates_class, conn_tables_fresh, conn_close_guarded, cleanup_runs_hook
@@ -88,9 +91,7 @@ def close(self):
     self.clients.clear()
 ''')
 
-template("Server", "accept", "accept_prog",
-         ["AWhileActive", "AAccept", "ATimeoutContinue", "AEintrContinue", "AErrorRaiseEOF", "AElseBreak", "AIfInactiveReturn",
-          "ASetBlocking", "AClientsAdd", "ACallAcceptMethod"], '''
+_ACC_HEAD = '''
 def accept(self):
     while self.active:
         try:
@@ -101,7 +102,11 @@ def accept(self):
             ex = sys.exc_info()[1]
             if get_exc_errno(ex) in (errno.EINTR, errno.EAGAIN):
                 pass
-            else:
+'''
+_ACC_SURVIVE = '''            elif get_exc_errno(ex) in (errno.EMFILE, errno.ENFILE, errno.ENOBUFS, errno.ENOMEM, errno.ECONNABORTED, errno.EPROTO):
+                time.sleep(0.05)
+'''
+_ACC_MID = '''            else:
                 raise EOFError()
         else:
             break
@@ -109,12 +114,24 @@ def accept(self):
         return
     sock.setblocking(True)
     self.clients.add(sock)
-    self._accept_method(sock)
-''')
+'''
+_ACC_RECHECK = '''    if self._closed:
+        self.clients.discard(sock)
+        sock.close()
+        return
+'''
+_ACC_TAIL = '''    self._accept_method(sock)
+'''
+for _sv in (False, True):
+    for _rc in (False, True):
+        template("Server", "accept", "accept_prog",
+                 ["AWhileActive", "AAccept", "ATimeoutContinue", "AEintrContinue"] + (["AResourceErrorSleepContinue"] if _sv else [])
+                 + ["AErrorRaiseEOF", "AElseBreak", "AIfInactiveReturn", "ASetBlocking", "AClientsAdd"] + (["ARecheckClosed"] if _rc else [])
+                 + ["ACallAcceptMethod"],
+                 _ACC_HEAD + (_ACC_SURVIVE if _sv else "") + _ACC_MID + (_ACC_RECHECK if _rc else "") + _ACC_TAIL,
+                 accept_survives_oserror=_sv, accept_rechecks_closed=_rc)
 
-template("Server", "_authenticate_and_serve_client", "worker_prog",
-         ["WTry", "WIfAuthenticator", "WAuthenticate", "WAuthErrorReturn", "WServeClient", "WReraise", "WFinallyShutdownGuarded",
-          "WFinallyDiscard"], '''
+_WRK_HEAD = '''
 def _authenticate_and_serve_client(self, sock):
     try:
         if self.authenticator:
@@ -123,7 +140,14 @@ def _authenticate_and_serve_client(self, sock):
                 sock2, credentials = self.authenticator(sock)
             except AuthenticationError:
                 return
-        else:
+'''
+_WRK_TRACK = '''            else:
+                if sock2 is not sock:
+                    self.clients.discard(sock)
+                    self.clients.add(sock2)
+                    sock = sock2
+'''
+_WRK_TAIL = '''        else:
             credentials = None
             sock2 = sock
         try:
@@ -137,7 +161,12 @@ def _authenticate_and_serve_client(self, sock):
             pass
         closing(sock)
         self.clients.discard(sock)
-''')
+'''
+for _tr in (False, True):
+    template("Server", "_authenticate_and_serve_client", "worker_prog",
+             ["WTry", "WIfAuthenticator", "WAuthenticate", "WAuthErrorReturn"] + (["WTrackReplacedSocket"] if _tr else [])
+             + ["WServeClient", "WReraise", "WFinallyShutdownGuarded", "WFinallyDiscard"],
+             _WRK_HEAD + (_WRK_TRACK if _tr else "") + _WRK_TAIL, worker_tracks_served=_tr)
 
 template("Server", "_serve_client", "serve_client_prog", ["VPeerName", "VTry", "VConfig", "VConnect", "VHandle", "VFinallyPass"], '''
 def _serve_client(self, sock, credentials):
@@ -409,7 +438,8 @@ def translate(repo):
             items.append(Item("!%s.%s" % (cls, name), "failed", text=str(e)))
         if fn is not None:
             items.append(shape("%s.%s" % (cls, name), func_shape(fn)))
-    for k in ("pool_close_drops", "pool_fail_discards", "fork_parent_keeps", "pool_catches_base"):
+    for k in ("pool_close_drops", "pool_fail_discards", "fork_parent_keeps", "pool_catches_base", "worker_tracks_served",
+              "accept_survives_oserror", "accept_rechecks_closed"):
         if k in facts:
             items.append(typed(k, "bool", coq_bool(facts[k])))
     # clients is a set created per server; the pool's tables are created per server
@@ -452,6 +482,16 @@ def translate(repo):
     items.append(typed("serve_ignores_empty_payload", "bool", coq_bool(any("if not data:\n        return False" in x for x in sv))))
     for cls, name in SHAPES:
         items.append(shape("%s.%s" % (cls, name), func_shape(find_func(find_class(tree, cls), name))))
+    # every class of the module with its bases and the names it defines: a new override in a subclass (accept, close, _serve_client ...)
+    # would not be looked at by the (class, method) templates above -- it shows up here
+    for n in tree.body:
+        if isinstance(n, ast.ClassDef):
+            names = sorted(m.name for m in n.body if isinstance(m, (ast.FunctionDef, ast.AsyncFunctionDef)))
+            attrs = sorted(t.id for m in n.body if isinstance(m, ast.Assign) for t in m.targets if isinstance(t, ast.Name))
+            items.append(shape("class:%s" % n.name, "bases=(%s) methods=%s attributes=%s" % (", ".join(ast.unparse(b) for b in n.bases), names, attrs)))
+    items.append(shape("module:server:toplevel", ", ".join(sorted(
+        (n.name if isinstance(n, (ast.ClassDef, ast.FunctionDef)) else ast.unparse(n)[:60]) for n in tree.body
+        if not isinstance(n, (ast.Import, ast.ImportFrom)) and not (isinstance(n, ast.Expr) and isinstance(n.value, ast.Constant))))))
     items.append(shape("Service._connect", func_shape(conn_fn)))
     items.append(shape("Connection._cleanup", func_shape(find_func(C_, "_cleanup"))))
     items.append(shape("Connection.close", func_shape(find_func(C_, "close"))))
